@@ -733,6 +733,50 @@ class Gen(object):
             self.block(sym, params=bparams, desc=self.doc_text() if self.p(0.7) else None, tags=tags, ann=ann)
         return sym, d
 
+    ARRAY_VARIANTS = ['fixed-size=4 zero-terminated=1', 'fixed-size=4', 'fixed-size=2', 'zero-terminated=1',
+                      'length=n', 'length=n zero-terminated=1', 'fixed-size=4 zero-terminated=0', '']
+
+    def gen_array_family(self):
+        """several array parameters / return values that share the element type and differ in exactly one of the
+        flags an <array> states (the compiler shares one type blob between identical types: whichever comes first
+        must not decide the flags of the others), the same options again on another element type"""
+        r = self.rng
+        elems = r.sample([('str', P(P(T('char', 2)))), ('int', P(T('int'))), ('u8', P(T('guint8'))), ('dbl', P(T('double'))),
+                          ('strv', P(P(P(T('char')))))], r.choice([1, 2, 2, 3]))
+        variants = r.sample(self.ARRAY_VARIANTS, r.randint(3, len(self.ARRAY_VARIANTS)))
+        # the pair the flags of which differ in zero-terminated only is always there, in either order
+        for must in (['fixed-size=4 zero-terminated=1', 'fixed-size=4'], ['length=n zero-terminated=1', 'length=n']):
+            if self.p(0.7):
+                for v in must:
+                    if v not in variants:
+                        variants.append(v)
+        jobs = [(en, et, v) for en, et in elems for v in variants]
+        r.shuffle(jobs)
+        fam = self.uid('arr')
+        for k, (en, et, v) in enumerate(jobs):
+            sym = '%s_%s_%s_%d' % (self.symp, fam, en, k)
+            as_return = self.p(0.25) and 'length' not in v
+            ann = '(array%s)' % ((' ' + v.replace('length=n', 'length=n')) if v else '')
+            if en == 'strv' and not as_return:
+                ann += ' (element-type utf8)' if False else ''
+            if as_return:
+                self.add({'d': 'function', 'name': sym, 'ret': et, 'params': []})
+                self.block(sym, desc='Array family.', tags=[('Returns', '%s (transfer none): the array' % ann)])
+            else:
+                params = [{'name': 'a', 'type': et}]
+                bparams = [('a', ann + (' (transfer none)' if self.p(0.3) else ''), 'the array')]
+                if 'length' in v:
+                    params.append({'name': 'n', 'type': T(r.choice(['int', 'gsize', 'guint']))})
+                    bparams.append(('n', '', 'its length'))
+                if self.p(0.3):
+                    params.insert(0, {'name': 'first', 'type': T('int')})
+                    bparams.insert(0, ('first', '', 'something before'))
+                self.add({'d': 'function', 'name': sym, 'ret': T('void'), 'params': params})
+                self.block(sym, params=bparams, desc='Array family.')
+        self.features.add('array_family')
+        for v in variants:
+            self.features.add('array_family:' + (v or 'bare'))
+
     def gen_shadow_pair(self):
         """foo_do and foo_do_full (rename-to foo_do): shadowed-by / shadows"""
         a = '%s_%s' % (self.symp, self.uid('act'))
@@ -957,6 +1001,8 @@ class Gen(object):
                 self.gen_class()
             elif what == 'interface':
                 self.gen_interface()
+        if self.p(0.5) or self.boost.get('array_family'):
+            self.gen_array_family()
         if self.uses_gio and self.p(0.8):
             self.add({'d': 'function', 'name': '%s_do_async' % self.symp, 'ret': T('void'),
                       'params': [{'name': 'cancellable', 'type': P(T('GCancellable'))},
@@ -1153,12 +1199,64 @@ def cmp_attrs(d, what, path, e, info):
               '%s: GIR states attributes %r on the <%s>, the typelib has %r' % (path, exp, what, got))
 
 
+ARRAY_TYPES = {None: 0, 'GLib.Array': 1, 'GLib.PtrArray': 2, 'GLib.ByteArray': 3}
+
+
+def gir_array_flags(arr):
+    """(zero-terminated, fixed-size, length) an <array> states; the GIR convention (girwriter.py writes the attribute
+    only when it is not implied, docs/gir-1.2.rnc): without zero-terminated= a C array is zero terminated iff it has
+    neither length= nor fixed-size="""
+    length, size, zero = arr.get('length'), arr.get('fixed-size'), arr.get('zero-terminated')
+    zt = (zero == '1') if zero is not None else (length is None and size is None)
+
+    def num(x):
+        try:
+            return int(x)
+        except (TypeError, ValueError):
+            return x
+    return zt, (num(size) if size is not None else -1), (num(length) if length is not None else -1)
+
+
+def cmp_type(d, what, path, holder, tl_type, depth=0):
+    """the flags an <array> states (kind of array, zero-terminated, fixed-size, index of the length argument / field)
+    for the type of a parameter, return value, field, property or constant, nested arrays and the element types of
+    lists / hash tables included.  holder: the element whose child is the <type>/<array>."""
+    if tl_type is None or depth > 6:
+        return
+    ty = kids(holder, 'array', 'type')
+    if not ty:
+        return
+    ty = ty[0]
+    if local(ty.tag) == 'array':
+        if tl_type.get('tag') != 'array':
+            d.add('kind:%s:array' % what, '%s: GIR states an <array>, the typelib has type %r' % (path, tl_type.get('tag')))
+            return
+        name = ty.get('name')
+        if name in ARRAY_TYPES:
+            d.flag('%s:array.kind' % what, path, ARRAY_TYPES[name], tl_type.get('array_type'))
+        if name is None:
+            zt, size, length = gir_array_flags(ty)
+            d.flag('%s:array.zero-terminated' % what, path, zt, tl_type.get('zero_terminated'))
+            d.flag('%s:array.fixed-size' % what, path, size, tl_type.get('fixed_size'))
+            d.flag('%s:array.length' % what, path, length, tl_type.get('length'))
+        cmp_type(d, what, path + '[]', ty, tl_type.get('p0'), depth + 1)
+    else:
+        sub = kids(ty, 'array', 'type')
+        if sub and tl_type.get('tag') in ('glist', 'gslist', 'ghash'):
+            # element types of a list / hash table: <type name="GLib.List"><type .../></type>
+            for i, s_ in enumerate(sub[:2]):
+                holder_i = ET.Element('x')
+                holder_i.append(s_)
+                cmp_type(d, what, '%s<%d>' % (path, i), holder_i, tl_type.get('p%d' % i), depth + 1)
+
+
 def cmp_callable(d, path, e, a, is_signal=False):
     rv = kids(e, 'return-value')
     if rv:
         rv = rv[0]
         ret = a.get('ret', {})
         cmp_attrs(d, 'return-value', path, rv, ret)
+        cmp_type(d, 'return-value', path + '()', rv, ret.get('type'))
         d.flag('return.transfer-ownership', path, rv.get('transfer-ownership'), ret.get('transfer'))
         d.flag('return.nullable', path, b(rv, 'nullable'), ret.get('nullable'))
         d.flag('return.skip', path, b(rv, 'skip'), ret.get('skip'))
@@ -1190,6 +1288,7 @@ def cmp_callable(d, path, e, a, is_signal=False):
         d.flag('parameter:closure', pp, int(p.get('closure', '-1')), x.get('closure'))
         d.flag('parameter:destroy', pp, int(p.get('destroy', '-1')), x.get('destroy'))
         cmp_attrs(d, 'parameter', pp, p, x)
+        cmp_type(d, 'parameter', pp, p, x.get('type'))
 
 
 def cmp_function(d, path, e, a, vis_props=None):
@@ -1266,6 +1365,7 @@ def cmp_fields(d, path, e, a, owner):
             d.flag('field:readable', '%s.%s' % (path, name), b(c, 'readable', True), f.get('readable'))
             d.flag('field:writable', '%s.%s' % (path, name), b(c, 'writable', False), f.get('writable'))
             cmp_attrs(d, 'field', '%s.%s' % (path, name), c, f)
+            cmp_type(d, 'field', '%s.%s' % (path, name), c, f.get('type'))
             try:
                 d.flag('field:bits', '%s.%s' % (path, name), int(c.get('bits', '0')), f.get('bits'))
             except ValueError:
@@ -1303,6 +1403,7 @@ def cmp_property(d, path, c, p):
     d.flag('property:transfer-ownership', path, c.get('transfer-ownership', 'none'), p.get('transfer'))
     d.flag('property:deprecated', path, b(c, 'deprecated'), p.get('deprecated'))
     cmp_attrs(d, 'property', path, c, p)
+    cmp_type(d, 'property', path, c, p.get('type'))
     # the public API only answers the setter of a writable, non-construct-only property and the
     # getter of a readable one (documented in gipropertyinfo.c)
     if c.get('setter') is not None and b(c, 'writable') and not b(c, 'construct-only'):
@@ -1378,6 +1479,7 @@ def cmp_constant(d, path, e, a):
     v = e.get('value')
     got = a.get('value')
     d.flag('constant.deprecated', path, b(e, 'deprecated'), a.get('deprecated'))
+    cmp_type(d, 'constant', path, e, a.get('type'))
     if got is None:
         return
     ok = True
